@@ -229,7 +229,13 @@ func Main(prop string) {
 		terms, evCount, shardStart = nil, 0, end
 	}
 	totalEvents := 0
+	livelocks := 0
 	for idx := range cases {
+		if livelocks >= 3 {
+			// every further case would cost two quiescence timeouts; the failures found so far are reported
+			run.Hist("aborted-after-3-cases-without-quiescence")
+			break
+		}
 		c := &cases[idx]
 		run.LogCase(idx, c)
 		res := RunCase(c)
@@ -263,7 +269,23 @@ func Main(prop string) {
 				run.Hist("saw:" + k)
 			}
 		}
+		comps, relStarted := map[int]bool{}, map[int]bool{}
 		for _, e := range res.Events {
+			switch {
+			case e.kind == "reactive.compute.begin":
+				comps[e.a] = true
+			case e.kind == "reactive.release.dep" && e.f1:
+				relStarted[e.a] = true
+			}
+			if e.kind == "reactive.addOut" && e.f1 && comps[e.a] && relStarted[e.a] {
+				run.Hist("window:cached-child-readopted-after-its-release-began")
+			}
+			if e.kind == "reactive.invalidate.mark" && e.f1 && comps[e.a] {
+				run.Hist("window:armed-computation-invalidated")
+			}
+			if e.kind == "timer.reg" && e.f1 {
+				run.Hist("window:timer-resource-released-before-Cleanup-registered")
+			}
 			switch {
 			case e.kind == "reactive.addOut" && e.f2:
 				run.Hist("window:addOut-of-already-invalid-dependency")
@@ -280,6 +302,7 @@ func Main(prop string) {
 			run.Sample(map[string]interface{}{"case": c, "events": res.NEvents, "computes": res.Computes, "kinds": res.Kinds})
 		}
 		if !res.Quiet {
+			livelocks++
 			continue // the log was not taken at quiescence; the oracle failure is already reported
 		}
 		term, problem := coqCase(c, res)
